@@ -341,6 +341,13 @@ pub fn program(rng: &mut Rng, luau: bool) -> String {
                 out.push_str(&member(rng, luau));
                 out.push('\n');
             }
+            11 => {
+                // the directive as an inline block comment: the member stays inside its group
+                let d = if rng.chance(1, 3) && !region_open { region_open = true; "--[[ stylua: ignore start ]] " } else { "--[[ stylua: ignore ]] " };
+                out.push_str(d);
+                out.push_str(&member(rng, luau));
+                out.push('\n');
+            }
             5 if !region_open => {
                 out.push_str("-- stylua: ignore start\n");
                 region_open = true;
